@@ -1027,6 +1027,52 @@ func (w *World) dialWSQuery(s *Sess, q string, hdr http.Header, onPkt func(*WSCl
 	return c
 }
 
+// DialWT opens a WebTransport session through the fake HTTP/3 layer (a real webtransport.Session on the server side)
+// and sends the Engine.IO handshake packet on its bidirectional stream: "0" for a new session, `0{"sid":..}` for an
+// upgrade candidate of session s.
+func (w *World) DialWT(s *Sess, onPkt func(*WSClient, Pkt)) *WSClient {
+	return w.dialWTRaw(s, "", onPkt)
+}
+
+func (w *World) dialWTRaw(s *Sess, first string, onPkt func(*WSClient, Pkt)) *WSClient {
+	w.mu.Lock()
+	if w.h3 == nil {
+		w.h3 = newFakeH3()
+	}
+	w.connN++
+	id := w.connN
+	w.mu.Unlock()
+	c := &WSClient{ID: id, Kind: "webtransport", Sess: s, w: w, OnPkt: onPkt}
+	w.mu.Lock()
+	w.conns[id] = c
+	w.mu.Unlock()
+	q := "EIO=4&transport=webtransport"
+	r := w.h3.newRequest("https://example.com"+w.Path+"?"+q, nil, true)
+	c.wtReq = r
+	w.rec.Log("cli.ws.dial", "cid", id, "sid", s.Sid, "q", q)
+	go func() {
+		defer func() {
+			if p := recover(); p != nil {
+				w.rec.Log("handler.panic", "cid", id, "msg", fmt.Sprint(p))
+			}
+			r.Cancel()
+		}()
+		w.Srv.OnWebTransportSession(types.NewHttpContext(r.RW, r.Req), w.h3.WT)
+	}()
+	c.wt = webtrans.NewConn(nil, r.Client, false, 0, 0, nil, nil, nil)
+	if first == "" {
+		first = "0"
+		if s.Sid != "" {
+			first = `0{"sid":"` + s.Sid + `"}`
+		}
+	}
+	c.wt.WriteMessage(webtrans.TextMessage, []byte(first))
+	// (the HTTP/3 layer accepts the session before the engine sees the handshake packet: not an admission by the engine)
+	w.rec.Log("cli.wt.open", "cid", id, "sid", s.Sid)
+	go c.readLoop()
+	return c
+}
+
 func (c *WSClient) decode(mt int, data []byte) Pkt {
 	if mt == websocket.BinaryMessage {
 		if c.Sess.Proto == 3 {
@@ -1148,6 +1194,9 @@ func (c *WSClient) CloseFrame() {
 	defer c.wmu.Unlock()
 	if c.conn != nil {
 		c.conn.WriteMessage(websocket.CloseMessage, websocket.FormatCloseMessage(websocket.CloseNormalClosure, ""))
+	} else if c.wtReq != nil { // WebTransport has no close frame: the client closes its stream and the session
+		c.wtReq.c2s.Close()
+		c.wtReq.reqStr.r.Close()
 	}
 }
 
